@@ -50,8 +50,31 @@ def run_local(case: Dict[str, Any], strategy: Any, workdir: str, n: int) -> Dict
     def holder_never_releases() -> bool:
         return False
 
+    owned: Dict[str, set] = {}
+
+    def tracked_open(*a: Any, **k: Any) -> int:
+        fd = os.open(*a, **k)
+        me = sched.me()
+        if me is not None:
+            owned.setdefault(me.name, set()).add(fd)
+        return fd
+
+    def tracked_close(fd: int) -> None:
+        # descriptor-ownership monitor: a lock object may only close a descriptor it opened and has not closed yet
+        # (descriptor numbers are recycled at once, so a stale close hits whatever another handle just opened)
+        me = sched.me()
+        if me is not None:
+            if fd not in owned.setdefault(me.name, set()):
+                other = next((n_ for n_, s_ in owned.items() if fd in s_), None)
+                viol.append(("close-of-descriptor-not-owned",
+                             f"{me.name} closes descriptor {fd}, which it does not own (double close)" +
+                             (f"; the number currently belongs to {other}'s lock descriptor" if other else "")))
+            else:
+                owned[me.name].discard(fd)
+        return os.close(fd)
+
     with GlobalPatch() as gp, SchedEnv(sched, None, None):
-        gp.set(fl, "os", ModuleProxy(os, {"open": gated("open", os.open), "close": gated("close", os.close),
+        gp.set(fl, "os", ModuleProxy(os, {"open": gated("open", tracked_open), "close": gated("close", tracked_close),
                                           "unlink": gated("unlink", os.unlink)}))
         ff = {"left": 1 if case.get("flock_fault") else 0}
 
@@ -457,6 +480,11 @@ class C19(Check):
             for sh in range(nsh):
                 yield {"part": "local", "roles": roles, "k": 1 if q else 2, "shard": sh, "nshards": nsh,
                        "reacquire": False, "max_runs": 300 if q else 1500}
+        # three contenders, two preemptions (descriptor numbers are recycled between handles of one process)
+        if not q:
+            for sh in range(64):
+                yield {"part": "local", "roles": ["plain", "plain", "plain"], "k": 3, "shard": sh, "nshards": 64,
+                       "reacquire": False, "max_runs": 3000}
         for i in range(2 if q else 8):
             yield {"part": "fork", "rep": i}
         for i in range(2 if q else 6):
